@@ -542,6 +542,8 @@ def _short(hist):
 
 
 def _cells(job):
+    """Breadth-first search over the IPython histories that start with job["first"] (one job per first
+    operation, so that the four sub-searches run side by side; states are deduplicated within each)."""
     cw = worlds.CellWorld()
     seen = {"magic=None,used=|": []}
     frontier = [[]]
@@ -550,7 +552,7 @@ def _cells(job):
     for depth in range(1, job["depth"] + 1):
         nxt = []
         for hist in frontier:
-            for op in CELL_OPS:
+            for op in CELL_OPS if depth > 1 or job.get("first") is None else [tuple(job["first"])]:
                 h2 = hist + [list(op)]
                 state, probs = _cells_run(cw, h2)
                 trans += 1
@@ -563,7 +565,7 @@ def _cells(job):
                         samples.append(dict(ipython_history=h2, state=state))
         frontier = nxt
     cw.reset()
-    return dict(cells=dict(states=len(seen), transitions=trans), viols=viols[:20], samples=samples)
+    return dict(cells=dict(states=sorted(seen), transitions=trans), viols=viols[:20], samples=samples)
 
 
 # ---- IPython sessions: the n-th cell after one magic
@@ -876,7 +878,7 @@ def _run(ctx, tmp, pool, sw):
     side_samples = []
     n_ses = 12 if ctx.quick else 40
     all_ses = sessions(n_ses)
-    side_jobs = [dict(kind="cells", depth=4 if ctx.quick else 5)]
+    side_jobs = [dict(kind="cells", depth=4 if ctx.quick else 5, first=list(op)) for op in CELL_OPS]
     side_jobs += [dict(kind="sessions", sessions=[x for x in all_ses if x["magics"] == m and x["cells"] == c]) for m in SESSION_MAGICS for c in SESSION_CELLS]
     side_jobs += [dict(kind="pytest", names=c) for c in pytest_cases(ctx.tier)]
     for i, P in enumerate(fams):
@@ -889,7 +891,9 @@ def _run(ctx, tmp, pool, sw):
         fam_cov.append(dict(family=P["name"], bounds=P["text"], states=len(r["seen"]), transitions=r["stats"].get("transitions", 0)))
         for o in r["side"]:
             if "cells" in o:
-                cells_cov = o["cells"]
+                cells_cov = cells_cov or dict(states=set(), transitions=0)
+                cells_cov["states"] |= set(o["cells"]["states"])
+                cells_cov["transitions"] += o["cells"]["transitions"]
                 cell_viols += o["viols"]
             elif "sessions" in o:
                 ses_cov.append(o["sessions"])
@@ -903,6 +907,8 @@ def _run(ctx, tmp, pool, sw):
             break
     ses_cov = common.merge_counts(ses_cov)
     pt_cov = common.merge_counts(pt_cov)
+    if cells_cov is not None:
+        cells_cov = dict(states=len(cells_cov["states"]), transitions=cells_cov["transitions"])
     for kind in ("ipython_history", "ipython_session", "pytest_session"):  # one sample of each side space
         samples += [x for x in side_samples if kind in x][:1]
     stats = common.merge_counts(stats_all)
